@@ -139,6 +139,9 @@ def oracle_c12(script, ig, mg):
             fails.append(("decoding-depends-on-how-the-reader-chops-the-input",
                           {"group": i, "whole": ig[i - 1].line, "chopped": a.line, "cmd": script[i][:80]}))
             break
+        if a.line.startswith("rt ") and not re.fullmatch(r"rt ok \d+", a.line):
+            fails.append(("big-record-does-not-round-trip", {"group": i, "impl": a.line, "cmd": script[i][:80]}))
+            break
         if a.line.startswith("dec ok") and a.line.endswith("reenc=differs"):
             fails.append(("decoded-record-does-not-reencode-to-the-input", {"group": i, "impl": a.line}))
             break
@@ -149,6 +152,13 @@ def oracle_c16(script, ig, mg):
     fails = []
     prim = primary_cmds(script)
     for i, a in enumerate(ig):
+        # a panic on the flush-worker thread (the harness reports a thread that
+        # died without running its exit hook)
+        if any(e.startswith("ev exit panicked") for e in a.evs) and not (
+                i < len(mg) and any(e.startswith("ev exit panicked") for e in mg[i].evs)):
+            fails.append(("worker-thread-panic", {"group": i, "impl": a.evs[-3:] + [a.line],
+                                                  "op": prim[i] if i < len(prim) else "?"}))
+            break
         if "panic" in a.line.split() or a.line.endswith("panic"):
             line = prim[i] if i < len(prim) else "?"
             cls = "panic"
@@ -316,7 +326,14 @@ def oracle_c15(script, ig, mg):
                     first = res[0].split(":")[0]
                     ft, fi = [int(x) for x in first.split(",")]
                     prev = ig[i - 1].line if i > 0 else ""
-                    if (ft, fi) <= (bt, bi) and prev.startswith("ret ok") and script_is_append(script, ig, i - 1):
+                    # "after a write": an accepted append, or a batch whose
+                    # accepted prefix was written before a later entry was
+                    # rejected (a new id is resident)
+                    wrote = prev.startswith("ret ok")
+                    if prev.startswith("ret err") and i >= 2 and ig[i - 2].line.startswith("res"):
+                        before = {x.split(":")[0] for x in ig[i - 2].line.split()[1:]}
+                        wrote = any(x.split(":")[0] not in before for x in res)
+                    if (ft, fi) <= (bt, bi) and wrote and script_is_append(script, ig, i - 1):
                         fails.append(("over-limit-with-evictable", {"group": i, "stat": a, "res": b}))
                         return fails
     return fails
@@ -516,7 +533,17 @@ def oracle_none(script, ig, mg):
 def scripts_c12(tier, rng):
     n = 40 if tier == "quick" else 400
     ss = gen.gen_c12(rng, n, 250)
-    return [(f"c12_{i}", s) for i, s in enumerate(ss)], {}
+    out = [(f"c12_{i}", s) for i, s in enumerate(ss)]
+    # sizes around powers of two up to 2^25 bytes: too large to print, round trip
+    # checked inside the implementation (the theorem covers every size in the model)
+    sizes = [2 ** k + d for k in (12, 16, 20, 24, 25) for d in (-1, 0, 1, 37)]
+    big = []
+    for j, sz in enumerate(sizes if tier != "quick" else sizes[:4] + sizes[12:18]):
+        big.append(f"rt A {1 + j},{j},x{sz}:{rng.below(250)}")
+        if j % 3 == 0:
+            big.append(f"rt S {j},1 - - 2,3 x{sz}:{rng.below(250)}")
+    out.append(("c12_big", big))
+    return out, {"big-record-round-trips": len(big)}
 
 
 def hist_scripts(prefix, n, rng, **kw):
@@ -579,6 +606,17 @@ def scripts_c16(tier, rng):
         g = gen.HistGen(rng.fork(), max_ops=25, boundary_args=True, rejected=True,
                         queries=("st", "read", "stat", "size", "iter"))
         out.append((f"c16_{i}", g.script()))
+        for k, v in g.stats.items():
+            stats[k] = stats.get(k, 0) + v
+    # any state: histories with small caches, chunk rotations, truncations and
+    # re-appends, explicit flush-worker steps (a panic on the worker thread
+    # counts, and so does what it does to later calls)
+    for i in range(n // 2):
+        g = gen.HistGen(rng.fork(), max_ops=35, small_cache=(i % 2 == 0), worker_steps=True, restarts=(i % 4 == 0),
+                        queries=("read", "iter", "stat", "st"), flush_prob=(1, 2), rejected=(i % 3 == 0),
+                        payload_sizes=(0, 1, 7, 300), weights=dict(append=45, truncate=12, purge=8))
+        lines = g.script() + ["flush 9998", "widle", f"read 0 {U64MAX}", "iter", "drain", "st", "stat", "drop"]
+        out.append((f"c16w_{i}", lines))
         for k, v in g.stats.items():
             stats[k] = stats.get(k, 0) + v
     return out, stats
@@ -1359,7 +1397,8 @@ def scripts_c14(tier, rng):
         lines += ["flush 9000"]
         k = r.below(4)
         lines += ["wack 9000"] if k else ["widle"]
-        lines += ["st", f"read 0 {U64MAX}", "dir", "droppanic" if r.chance(1, 4) else "drop", "dir", g.cfg_line(),
+        lines += ["st", f"read 0 {U64MAX}", "dir",
+                  "dropslow" if (i % 25 == 7 and k) else ("droppanic" if r.chance(1, 4) else "drop"), "dir", g.cfg_line(),
                   "open", "st", f"read 0 {U64MAX}"]
         # the new instance keeps working
         if g.m.entries:
@@ -1369,6 +1408,17 @@ def scripts_c14(tier, rng):
         out.append((f"c14_{i}", lines))
         for kk, v in g.stats.items():
             stats[kk] = stats.get(kk, 0) + v
+    # the worker still has chunk files to unlink when the store is dropped and
+    # needs more than a second for each: drop must wait for it however long it takes
+    for j in range(4 if tier == "quick" else 16):
+        r = rng.fork()
+        mr = 2 + r.below(2)
+        n = 2 * mr + 1 + r.below(3)
+        lines = [f"cfg mr={mr}", "open", "app " + " ".join(f"1,{x},{gen.rnd_bytes_token(r, [1, 7])}" for x in range(n)),
+                 "flush 1", "widle", f"purge 1 {mr + r.below(n - mr - 1)}", "flush 9000", "wack 9000", "dir", "dropslow", "dir",
+                 "open", "st", f"read 0 {U64MAX}", f"app 1,{n},aa", "flush 777", "widle", "st", "dir"]
+        out.append((f"c14slow_{j}", lines))
+        stats["slow-drop"] = stats.get("slow-drop", 0) + 1
     return out, stats
 
 
@@ -1470,7 +1520,7 @@ def oracle_c13(script, ig, mg):
             else:
                 fails.append(("refused-although-nobody-owns-the-directory", {"group": i, "line": g.line}))
                 return fails
-        elif c in ("drop", "droppanic") and g.line.startswith("dropped") and owner == "store":
+        elif c in ("drop", "droppanic", "dropslow") and g.line.startswith("dropped") and owner == "store":
             owner = None
         elif c == "dumpdrop" and owner == "dump":
             owner = None
@@ -1494,6 +1544,11 @@ def scripts_c13(tier, rng):
         t, p, it = r.choice([(2, 0, 30), (4, 2, 20), (8, 1, 15), (3, 3, 12)])
         lines += [f"lockrace {t} {p} {it}", "open", f"read 0 {U64MAX}", "dumpopen", "drop", "dumpopen", "open",
                   "dumpdrop", "open", f"read 0 {U64MAX}"]
+        if i % 6 == 1:
+            # a process forked while the store was open still holds a copy of the
+            # lock file's descriptor when the owner is dropped
+            lines += ["forkhold", "drop", "open", "drop", "dumpopen", "forkhold", "dumpdrop", "open", "forkrelease",
+                      "drop", "open"]
         out.append((f"c13_{i}", lines))
         for k, v in g.stats.items():
             stats[k] = stats.get(k, 0) + v
